@@ -323,6 +323,16 @@ def check(tier, seed):
     if nontrivial == 0:
         raise MachineryDefect("no schema built")
     engine_p.run(run, "C11")
+    # frame: building / extending writes nothing into what it was given (definition nodes, supplied types, the base schema of extend_schema): the schema is a function of
+    # the document, and a base schema still contains exactly what its own SDL declares after another schema was derived from it (vf/aliascheck.py, as under C14)
+    import inspect as _inspect
+    import py_gql.sdl.ast_type_builder as _tb
+    import py_gql.sdl.schema_from_ast as _sfa
+    from vf import aliascheck
+    _funcs = [("ASTTypeBuilder.%s" % n_, f_) for n_, f_ in vars(_tb.ASTTypeBuilder).items() if _inspect.isfunction(f_) and n_.startswith(("_extend", "extend", "_build", "build"))]
+    _funcs += [("%s.%s" % (m_.__name__.split(".")[-1], n_), f_) for m_ in (_tb, _sfa) for n_, f_ in vars(m_).items()
+               if _inspect.isfunction(f_) and f_.__module__ == m_.__name__]
+    aliascheck.account(run, aliascheck.obligations(_funcs, "build", "building a schema changes the nodes, types or base schema it was given"))
     run.cov["evaluations"] = n
     run.cov["distinct_nontrivial"] = nontrivial
     run.cov["rule"] = "%d valid type-system documents (base schema, %d edited variants, recursion / defaults / descriptions / deprecations / schema definitions) " \
